@@ -1,22 +1,40 @@
 (* Props/C04.v — theorems of property C04 (statements only; proofs in coq/Proofs/MapStream*.v).
-   Model: coq/Model/MapStream.v (version Fixed = /repo after work/C04/fix-*.diff, Orig = as found).
+   Model: coq/Model/MapStream.v (version Fixed = /repo after work/C04/fix-*.diff AND work/E7/fix-F-C02f.diff,
+          Fixed0 = after work/C04/fix-*.diff only, Orig = as found).
    Spec:  coq/Spec/MapStreamSpec.v. *)
 From Coq Require Import ZArith List Lia.
-From EV Require Import Res Arr MapStream MapStreamSpec MapStreamBase MapStreamFixed MapStreamRefuted MapHelpers
-  MapIndexedBase MapIndexedKernel MapIndexedDriver MapIndexedHelper MapStreamOrig.
+From EV Require Import Res Arr MapStream MapStreamSpec MapStreamBase MapStreamFixed MapStreamGen MapStreamRefuted MapHelpers
+  MapIndexedBase MapIndexedKernel MapIndexedDriver MapIndexedHelper MapStreamOrig MapStreamSpan.
 Import ListNotations.
 Open Scope Z_scope.
 
 (* ---- streaming, fixed-width element types (numeric, bool, fixed string): FULL ----------------
-   For every element type, every invalid marker, every chunk size >= 1, every source and every
-   map whose valid entries are in range and non-decreasing: the repaired driver terminates with
+   For every element type, every invalid marker, every chunk size >= 1, every source and EVERY
+   map whose valid entries are in range (since fix-F-C02f no order is required: the value window of
+   a sub-chunk is the min..max of its valid entries): the repaired driver terminates with
    any fuel >= |map|+1 and yields exactly map_spec (length |map|, row r = data[map[r]] or empty). *)
 Theorem map_stream_correct :
   forall (A:Type) (zfill empty:A) (data:list A) (inv:Z) (m:list Z) (cs:Z) (fuel:nat),
+    1 <= cs -> in_range_map (len data) inv m -> (fuel >= length m + 1)%nat ->
+    ordered_map_valid_stream zfill empty fuel Fixed data m inv cs = Ok (map_spec empty data inv m).
+Proof. exact @map_stream_correct_any. Qed.
+Print Assumptions map_stream_correct.
+
+(* the statement under the old precondition (valid entries in range and non-decreasing) is the special case *)
+Theorem map_stream_correct_ordered_map :
+  forall (A:Type) (zfill empty:A) (data:list A) (inv:Z) (m:list Z) (cs:Z) (fuel:nat),
     1 <= cs -> valid_map (len data) inv m -> (fuel >= length m + 1)%nat ->
     ordered_map_valid_stream zfill empty fuel Fixed data m inv cs = Ok (map_spec empty data inv m).
-Proof. exact @map_stream_correct_gen. Qed.
-Print Assumptions map_stream_correct.
+Proof.
+  intros A zfill empty data inv m cs fuel Hcs Hv Hf.
+  exact (map_stream_correct A zfill empty data inv m cs fuel Hcs (valid_map_in_range _ _ _ Hv) Hf).
+Qed.
+Print Assumptions map_stream_correct_ordered_map.
+
+Example map_stream_correct_hyps_unordered :    (* a non-monotone map: the right-hand map of a many-to-many join *)
+  in_range_mapb 6 INVALID_INDEX_64 [0;1;2;0;1;2;INVALID_INDEX_64;5] = true /\
+  valid_mapb 6 INVALID_INDEX_64 [0;1;2;0;1;2;INVALID_INDEX_64;5] = false.
+Proof. split; reflexivity. Qed.
 
 Example map_stream_correct_hyps :
   valid_mapb 6 INVALID_INDEX_32 [INVALID_INDEX_32; 0; 2; 2; INVALID_INDEX_32; 5; INVALID_INDEX_32] = true.
@@ -26,23 +44,61 @@ Proof. reflexivity. Qed.
    For every well-formed indexed column (offsets start at 0, non-decreasing, end at |values|),
    every marker, every chunk size >= 1 and value factor >= 0 such that every *mapped* entry fits
    the value buffer of chunksize*value_factor bytes ("every value-buffer size that can hold the
-   longest entry"), every valid map: the repaired driver terminates with any fuel >=
-   |map|+|offsets|+1 and yields the prefix-sum offsets and concatenated bytes of the mapped
-   strings (empty string where the map holds the marker). *)
+   longest entry"), EVERY map whose valid entries are in range (no order required since fix-F-C02f:
+   the driver seeks the value sub-chunk that holds the next entry, forwards or backwards): the
+   repaired driver terminates with any fuel >= 2*|map|+2 (per map entry at most one kernel call
+   that consumes it and one that asks for its value sub-chunk) and yields the prefix-sum offsets and
+   concatenated bytes of the mapped strings (empty string where the map holds the marker). *)
 Theorem indexed_stream_correct :
   forall (d_idx d_val:list Z) (inv:Z) (m:list Z) (cs vf:Z) (fuel:nat),
     wf_indexed d_idx d_val -> 1 <= cs -> 0 <= vf ->
-    valid_map (len d_idx - 1) inv m -> entries_fit d_idx d_val inv m (cs * vf) ->
-    (fuel >= length m + length d_idx + 1)%nat ->
+    in_range_map (len d_idx - 1) inv m -> entries_fit d_idx d_val inv m (cs * vf) ->
+    (fuel >= 2 * length m + 2)%nat ->
     ordered_map_valid_indexed_stream fuel Fixed d_idx d_val m inv cs vf = Ok (indexed_spec d_idx d_val inv m).
 Proof. exact indexed_stream_correct_top. Qed.
 Print Assumptions indexed_stream_correct.
+
+(* the old precondition is the special case *)
+Theorem indexed_stream_correct_ordered_map :
+  forall (d_idx d_val:list Z) (inv:Z) (m:list Z) (cs vf:Z) (fuel:nat),
+    wf_indexed d_idx d_val -> 1 <= cs -> 0 <= vf ->
+    valid_map (len d_idx - 1) inv m -> entries_fit d_idx d_val inv m (cs * vf) ->
+    (fuel >= 2 * length m + 2)%nat ->
+    ordered_map_valid_indexed_stream fuel Fixed d_idx d_val m inv cs vf = Ok (indexed_spec d_idx d_val inv m).
+Proof.
+  intros d_idx d_val inv m cs vf fuel Hwf Hcs Hvf Hv Hfit Hf.
+  exact (indexed_stream_correct d_idx d_val inv m cs vf fuel Hwf Hcs Hvf (valid_map_in_range _ _ _ Hv) Hfit Hf).
+Qed.
+Print Assumptions indexed_stream_correct_ordered_map.
+
+Example indexed_stream_correct_unordered :   (* "aaaa","bbbb"; buffer 4 bytes = one entry; the value sub-chunks are revisited *)
+  ordered_map_valid_indexed_stream 10 Fixed [0;4;8] [97;97;97;97;98;98;98;98] [1;0;1;0] (-1) 4 1
+  = Ok ([0;4;8;12;16], [98;98;98;98;97;97;97;97;98;98;98;98;97;97;97;97]).
+Proof. exact indexed_seek_back_witness. Qed.
 
 Example indexed_stream_correct_hyps :   (* 'a','bb','','dddd'; buffer 4 bytes; marker S64 *)
   valid_mapb 4 INVALID_INDEX_64 [INVALID_INDEX_64; 0; 1; 1; INVALID_INDEX_64; 3] = true /\
   ordered_map_valid_indexed_stream 20 Fixed [0;1;3;3;7] [97;98;98;100;100;100;100]
      [INVALID_INDEX_64; 0; 1; 1; INVALID_INDEX_64; 3] INVALID_INDEX_64 2 2
   = Ok ([0;0;1;3;5;5;9], [97;98;98;98;98;100;100;100;100]).
+Proof. split; vm_compute; reflexivity. Qed.
+
+(* ---- the memory bound of the repaired sub-chunker: FULL ----------------------------------------
+   whatever the order of the map, the valid entries of a sub-chunk cut by the repaired
+   next_map_subchunk lie fewer than chunksize source rows apart, so the source window
+   data[first:last+1] (first/last = min/max returned by the repaired get_valid_value_extents) read for
+   it holds at most chunksize rows — the bound the code as found guaranteed for ordered maps only. *)
+Theorem subchunk_window_bounded :
+  forall (map_:list Z) (sm inv cs nsm first last:Z),
+    1 <= cs -> 0 <= sm <= len map_ -> next_map_subchunk2 map_ sm inv cs = Ok nsm ->
+    get_valid_value_extents2 map_ sm nsm inv = Ok (first, last) -> first <> inv ->
+    0 <= last - first < cs.
+Proof. exact subchunk_window_rows. Qed.
+Print Assumptions subchunk_window_bounded.
+
+Example subchunk_window_bounded_hyps :   (* unordered map, chunk size 4: first sub-chunk [5;3;-1;6], window rows 3..6 *)
+  next_map_subchunk2 [5;3;-1;6;2;4] 0 (-1) 4 = Ok 4 /\
+  get_valid_value_extents2 [5;3;-1;6;2;4] 0 4 (-1) = Ok (3, 6).
 Proof. split; vm_compute; reflexivity. Qed.
 
 (* ---- non-streaming helpers give the same answer: FULL ------------------------------------------
@@ -72,29 +128,29 @@ Print Assumptions safe_map_indexed_values_correct.
 Theorem indexed_stream_equals_helper :   (* streaming and non-streaming indexed mapping agree *)
   forall (d_idx d_val:list Z) (inv:Z) (m:list Z) (cs vf:Z) (fuel:nat),
     wf_indexed d_idx d_val -> 1 <= cs -> 0 <= vf ->
-    valid_map (len d_idx - 1) inv m -> entries_fit d_idx d_val inv m (cs * vf) ->
-    (fuel >= length m + length d_idx + 1)%nat ->
+    in_range_map (len d_idx - 1) inv m -> entries_fit d_idx d_val inv m (cs * vf) ->
+    (fuel >= 2 * length m + 2)%nat ->
     ordered_map_valid_indexed_stream fuel Fixed d_idx d_val m inv cs vf
     = safe_map_indexed_values d_idx d_val m (filter_of inv m) [].
 Proof.
   intros d_idx d_val inv m cs vf fuel Hwf Hcs Hvf Hv Hfit Hf.
   rewrite (indexed_stream_correct d_idx d_val inv m cs vf fuel Hwf Hcs Hvf Hv Hfit Hf).
-  rewrite (safe_map_indexed_values_correct d_idx d_val inv m [] Hwf (valid_map_in_range _ _ _ Hv)).
+  rewrite (safe_map_indexed_values_correct d_idx d_val inv m [] Hwf Hv).
   reflexivity.
 Qed.
 Print Assumptions indexed_stream_equals_helper.
 
 Theorem stream_equals_helpers :   (* "the non-streaming mapping helpers give the same answer" *)
   forall (A:Type) (zfill empty:A) (data:list A) (inv:Z) (m:list Z) (cs:Z) (fuel:nat),
-    1 <= cs -> valid_map (len data) inv m -> (fuel >= length m + 1)%nat ->
+    1 <= cs -> in_range_map (len data) inv m -> (fuel >= length m + 1)%nat ->
     ordered_map_valid_stream zfill empty fuel Fixed data m inv cs = map_valid empty data m inv /\
     ordered_map_valid_stream zfill empty fuel Fixed data m inv cs
       = safe_map_values empty Fixed data m (filter_of inv m) None.
 Proof.
   intros A zfill empty data inv m cs fuel Hcs Hv Hf.
   rewrite (map_stream_correct A zfill empty data inv m cs fuel Hcs Hv Hf).
-  rewrite (map_valid_correct A empty data inv m (valid_map_in_range _ _ _ Hv)).
-  rewrite (safe_map_values_correct A empty data inv m None (valid_map_in_range _ _ _ Hv)).
+  rewrite (map_valid_correct A empty data inv m Hv).
+  rewrite (safe_map_values_correct A empty data inv m None Hv).
   split; reflexivity.
 Qed.
 Print Assumptions stream_equals_helpers.
@@ -157,3 +213,25 @@ Theorem safe_map_values_empty_refuted :   (* F-C04d *)
   safe_map_values 0 Orig [10;20] [] [] None = OOB 200.
 Proof. exact (proj1 safe_map_values_empty_witness). Qed.
 Print Assumptions safe_map_values_empty_refuted.
+
+(* ---- F-C02f: the code after the C04 fixes only (version Fixed0) on in-range maps that are not
+   non-decreasing (the right-hand map of a many-to-many ordered merge): REFUTED; the same witnesses
+   on the code after fix-F-C02f give the specified answer (replayed on the real code: corpus/C04/F-C02f.json,
+   corpus/C02/witnesses.json) -------------------------------------------------------------------- *)
+Theorem map_stream_unordered_map_refuted :
+  exists data m inv cs, in_range_mapb (len data) inv m = true /\ 1 <= cs /\
+    (exists site, ordered_map_valid_stream 0 0 (length m + 8) Fixed0 data m inv cs = OOB site) /\
+    ordered_map_valid_stream 0 0 (length m + 8) Fixed data m inv cs = Ok (map_spec 0 data inv m).
+Proof.
+  exists [30;40], [0;1;0;1], (-1), 3. split; [reflexivity|]. split; [lia|]. split; [exists 123|]; vm_compute; reflexivity.
+Qed.
+Print Assumptions map_stream_unordered_map_refuted.
+
+Theorem indexed_stream_unordered_map_refuted :
+  exists di dv m inv cs vf, in_range_mapb (len di - 1) inv m = true /\
+    ordered_map_valid_indexed_stream 10 Fixed0 di dv m inv cs vf = Raise E_IndexError /\
+    ordered_map_valid_indexed_stream 10 Fixed di dv m inv cs vf = Ok (indexed_spec di dv inv m).
+Proof.
+  exists [0;1;3], [97;98;98], [1;0], (-1), 2, 4. split; [reflexivity|]. split; vm_compute; reflexivity.
+Qed.
+Print Assumptions indexed_stream_unordered_map_refuted.
